@@ -40,3 +40,27 @@ func TestBenchOverhead(t *testing.T) {
 		fmt.Printf("%s: %.3f ms wall, %.3f ms cpu per call\n", name, time.Since(t0).Seconds()/2, (cpuNow()-c0)/2)
 	}
 }
+
+func TestBenchSeeds(t *testing.T) {
+	if os.Getenv("VERIF_C16_BENCH") == "" {
+		t.Skip()
+	}
+	c := loadCorpus(t)
+	i := uint32(0)
+	t0, c0 := time.Now(), cpuNow()
+	n := 0
+	for _, s := range c.Snippets["js"][:1500] {
+		i++
+		opt := i * 2654435761 &^ 7
+		if i%3 != 0 {
+			opt &= 0x00007ff8
+		}
+		raw, _ := json.Marshal(mkTCase(opt, []byte(s), nil))
+		watched("fuzztransform", raw, watchdogWall)
+		n++
+		if n%500 == 0 {
+			fmt.Printf("seeds %d: %.3f ms wall, %.3f ms cpu per call\n", n, time.Since(t0).Seconds()*1000/500, (cpuNow()-c0)*1000/500)
+			t0, c0 = time.Now(), cpuNow()
+		}
+	}
+}
